@@ -1,6 +1,7 @@
 //! Area "c12": concatenated XZ streams (stream padding of every small length, valid and invalid,
 //! multi-stream decoding on and off) and concatenated LZIP members/files (with trailing data).
 //! Commands and executors: see a_c02.rs.
+// requires-verif-hooks (hook H3: FilterConfig / FilterType re-exports); left out of guard-off builds by build.rs
 use super::a_c02::*;
 use crate::util::*;
 
